@@ -419,6 +419,8 @@ func handle(line string) (res string) {
 		return readOnly(args)
 	case op == "packet.wlen" && len(args) == 2:
 		return wlen(args)
+	case op == "packet.hs" && len(args) == 7:
+		return hs(args)
 	}
 	return "bad-op"
 }
